@@ -1,0 +1,9 @@
+//go:build verif
+
+package tls
+
+// In-line verification hook variables (set only through the Verif* setters of verif_tlshs.go).
+var (
+	verifHSReadHook  func(c *Conn, msg []byte)
+	verifHSWriteHook func(c *Conn, typ recordType, data []byte)
+)
